@@ -5,6 +5,7 @@ import SV.Immunity.Proofs
 import SV.GenProofs.Immunity
 import SV.Immunity.CacheProofs
 import SV.Immunity.FifoSpec
+import SV.Immunity.ChunkLib
 namespace SV.Props.C12
 open SV SV.Immunity
 
@@ -100,5 +101,14 @@ theorem fifo_refusal_iff (cfg : ChunkCfg) (q : Q) (k p : Bytes) (size : Int) :
       (q.has k = false ∧ q.full cfg = true ∧
         (cfg.numToEvict = 0 ∨ ∀ e ∈ q.queue, q.immune.contains e.1 = true))) ∧
     ((q.add cfg k p size).2 = (false, false) → (q.add cfg k p size).1 = q) := q_refusal_iff cfg q k p size
+
+/-- on the faithful two-structure chunk (items map + linked list, SV/Immunity/ChunkLib.lean): an element flagged by
+    ImmunizeKeys stays linked, flagged and retrievable through the map across every later history that does not remove its key -/
+theorem immunized_element_survives_on_the_two_structure_chunk (cfg : ChunkCfg) {c : Lib.LChunk} (h : Lib.Coh c)
+    (keys : List Bytes) {e : Lib.Elem} (he : e ∈ c.list) (hk : e.item.key ∈ keys) (ops : List Lib.Op)
+    (hno : Lib.Op.remove e.item.key ∉ ops) :
+    ∃ e' ∈ (Lib.finalState (Lib.LChunk.step cfg) c (Lib.Op.immunize keys :: ops)).list, Lib.SameElem e e' ∧ e'.item.immune = true ∧
+      (Lib.finalState (Lib.LChunk.step cfg) c (Lib.Op.immunize keys :: ops)).getItem e.item.key = some e'.item :=
+  Lib.lib_immunized_never_evicted cfg h keys he hk ops hno
 
 end SV.Props.C12
